@@ -104,7 +104,11 @@ def check_props(pid, timeout=1200):
     pf = props_file(pid)
     src = open(pf, encoding="utf-8").read()
     theorems = re.findall(r"^\s*(?:Theorem|Lemma|Corollary|Example)\s+([A-Za-z0-9_']+)", src, flags=re.M)
-    ok, log = make(["Props/%s.vo" % pid], timeout=timeout)
+    targets = ["Props/%s.vo" % pid]
+    # the executable comparison module used by the correspondence run must be rebuilt too
+    if os.path.exists(os.path.join(COQ, "Model", pid + "Check.v")):
+        targets.append("Model/%sCheck.vo" % pid)
+    ok, log = make(targets, timeout=timeout)
     res = dict(ok=ok, theorems=theorems, axioms=[], log=log, failed=None)
     if not ok:
         m = re.search(r'File "([^"]+)", line (\d+)[^\n]*\n(?:.*\n)*?Error:?\s*((?:.*\n?){1,6})', log)
